@@ -65,7 +65,7 @@ def b01 (b : Bool) : String := if b then "1" else "0"
 def holders (s : St) : Nat := s.conns.countP (fun c => holding c.pc)
 
 def summary (s : St) : String :=
-  s!"{s.conns.countP (·.entry)} {s.conns.countP (fun c => wopen c.pc)} {b01 s.centry} {b01 s.cwopen} {holders s} {hpcName s.hpc} {s.nCC} {s.nCD} {b01 s.lateOpen} {s.hcount} {((List.range 8).map (fun a => (s.waiters a).length)).sum} {((List.range 8).map (fun a => s.size - s.semv a)).sum} {s.conns.countP (·.late)}"
+  s!"{s.conns.countP (·.entry)} {s.conns.countP (fun c => wopen c.pc)} {b01 s.centry} {b01 s.cwopen} {holders s} {hpcName s.hpc} {s.nCC} {s.nCD} {b01 s.lateOpen} {s.hcount} {",".intercalate ((List.range 8).map (fun a => toString (s.waiters a).length))} {",".intercalate ((List.range 8).map (fun a => toString (s.size - s.semv a)))} {s.conns.countP (·.late)}"
 
 def connSummary (s : St) : String :=
   if s.conns.isEmpty then "-" else
